@@ -17,7 +17,7 @@ import ast
 import copy
 import itertools
 
-from ..cfg import Assume, header_uses
+from ..cfg import Assume, header_exprs, header_uses
 from ..core import (base_name, call_name, const_value, kwarg, names_loaded, params,
                     target_names, u, walk_expr, walk_local)
 from ..patterns import (Cmp, assigns_to, calls_in, canon_atom,
@@ -45,13 +45,27 @@ EXPLANATION = (
     'as `buffer_width = buffer_width or 15` is a different function of the '
     'argument - it replaces an explicit zero buffer); (D2) transitions are the slice '
     'lemma with L = 1 along the frame axis, != 0, with one length entry per '
-    'input row (np.bincount with minlength); (D3) gate construction: the gates '
-    'are the boundaries of the current basin looked up at [state] / '
-    '[state + 1], the wrap-around swap tests the seam values of exactly those '
-    'bounds (or the equivalent first/last basin index), the buffer is '
-    'subtracted from the lower and added to the upper gate, and the exit test '
+    'input row (np.bincount with minlength); (D3) gate construction, decided '
+    'semantically: for every literal boundary set the library passes and every '
+    'state of it, the loop-free get_gates is evaluated with the buffer kept as a '
+    'symbol (numbers are affine functions of the buffer; source literals are '
+    'folded) and must return (360 if boundaries[s] == 0 else boundaries[s]) - '
+    'buffer and (0 if boundaries[s + 1] == 360 else boundaries[s + 1]) + buffer, '
+    'in that order - whatever the spelling; the exit test '
     'is inverted for the wrap-around basin (decided exactly over the weak '
-    'orderings of lower gate, upper gate and angle).  Constructs are located '
+    'orderings of lower gate, upper gate and angle); a decision '
+    'is_buffered_transition takes from basin INDICES alone (state against the '
+    'basin np.digitize puts the new angle in) is enumerated over the index pairs '
+    'of the library\'s basin counts: "transition" for two basins that share a '
+    'boundary - also through the 0/360 seam - or "no transition" for two '
+    'different basins contradicts the hysteresis / the zero-buffer case; (D5) the '
+    'functions on the path _rotamers -> is_buffered_transition -> get_gates and '
+    'transitions read no object that persists between calls and is written at '
+    'run time (module-level container, global, mutable default), except a memo '
+    'table whose key contains every parameter the stored value is computed from '
+    '(backward slice over reaching definitions and branch conditions): a key that '
+    'omits one - the buffer width - hands out the gates of an earlier call.  '
+    'Constructs are located '
     'by role and compared modulo temporaries, guard polarity and call '
     'spelling; an unrecognised restructuring is reported as incomplete.  '
     'Added after the fourth hunt: (D3.buffer-range) for the LITERAL boundary '
@@ -236,15 +250,6 @@ def _worst(verdicts):
     return ('match', {})
 
 
-def _both(forms):
-    """`a == b` forms in both operand orders."""
-    out = []
-    for f in forms:
-        l, r = f.split(' == ')
-        out += ['%s == %s' % (l, r), '%s == %s' % (r, l)]
-    return out
-
-
 def _cmp_node(fi, c, scalars=None):
     """Compare node of an atomic Cmp with both sides expanded.  `scalars`:
     {name: (definition site, expanded value)} of immutable scalars that an
@@ -410,6 +415,56 @@ def _subst(tree, mapping):
         def visit_Name(self, n):
             return copy.deepcopy(mapping[n.id]) if isinstance(n.ctx, ast.Load) and n.id in mapping else n
     return S().visit(copy.deepcopy(tree))
+
+
+def helper_value(mod, call, depth=3):
+    """The value of a call `h(a1, ..)` of a module-level VALUE helper as an
+    expression over the caller's (pure) argument expressions; None if `h` is
+    not such a helper.  A value helper has, after the docstring, only
+    assignments of pure expressions to plain local names (no parameter is
+    rebound, nothing is mutated) and one final `return <pure expr>`: the call
+    then equals the return expression with the temporaries expanded and the
+    parameters replaced by the arguments, evaluated where the call stands."""
+    from ..normal import is_pure
+    if not isinstance(call.func, ast.Name) or depth <= 0:
+        return None
+    h = mod.functions.get(call.func.id)
+    if h is None or h.decorator_list or h.args.vararg or h.args.kwarg or h.args.kwonlyargs:
+        return None
+    hp = params(h)
+    bnd = bind_args(call, hp)
+    if bnd is None or set(bnd) != set(hp) or not all(is_pure(a) for a in bnd.values()):
+        return None
+    body = [st for k, st in enumerate(h.body)
+            if not (isinstance(st, ast.Expr) and isinstance(st.value, ast.Constant)) and not isinstance(st, ast.Pass)]
+    if not body or not isinstance(body[-1], ast.Return) or body[-1].value is None:
+        return None
+    local = set()
+    for st in body[:-1]:
+        if not (isinstance(st, ast.Assign) and len(st.targets) == 1 and isinstance(st.targets[0], ast.Name) and is_pure(st.value)):
+            return None
+        local.add(st.targets[0].id)
+    if local & set(hp):
+        return None
+    hfi = finfo(mod, h)
+    rv = inline_values(mod, hfi.expand(body[-1].value), depth - 1)
+    if not is_pure(rv) or any(isinstance(x, ast.Name) and x.id in local for x in ast.walk(rv)):
+        return None
+    if local & {x for a in bnd.values() for x in names_loaded(a)}:
+        return None
+    return _subst(rv, bnd)
+
+
+def inline_values(mod, expr, depth=3):
+    """`expr` with every call of a module-level value helper replaced by its value."""
+    class R(ast.NodeTransformer):
+        def visit_Call(self, n):
+            self.generic_visit(n)
+            v = helper_value(mod, n, depth)
+            return ast.copy_location(v, n) if v is not None else n
+    t = R().visit(copy.deepcopy(expr))
+    ast.fix_missing_locations(t)
+    return t
 
 
 def _enclosing_loop(mod, node, fn):
@@ -751,105 +806,306 @@ def d1_carried_state(ck, mod):
 # ---------------------------------------------------------------------------
 # D3
 
-def d3_gates(ck, mod):
+class _Aff:
+    """c + b * <buffer>: a number that is an affine function of the buffer width."""
+    __slots__ = ('b', 'c')
+
+    def __init__(self, b, c):
+        self.b, self.c = float(b), float(c)
+
+    def __eq__(self, o):
+        return isinstance(o, _Aff) and abs(self.b - o.b) < 1e-9 and abs(self.c - o.c) < 1e-9
+
+    def __hash__(self):
+        return hash((round(self.b, 6), round(self.c, 6)))
+
+    def __repr__(self):
+        if self.b == 0:
+            return '%g' % self.c
+        return '%g %s %sbuffer' % (self.c, '+' if self.b > 0 else '-', '' if abs(self.b) == 1 else '%g * ' % abs(self.b))
+
+
+class _Raises(Exception):
+    pass
+
+
+def _gates_run(fn, cs_, hb, bw, lit, S, forced=None, noop=()):
+    """Symbolic evaluation of the loop-free get_gates for ONE literal boundary
+    set `lit` of the library and ONE state S, with the buffer width kept as a
+    symbol: every number is an affine function c + b * buffer (constant
+    folding of source literals; a comparison whose outcome would depend on
+    the buffer is not decided -> _Unsupported).  Returns the value returned.
+    `forced`: {id(test): bool} outcomes fixed by the caller (verified memo
+    lookups); `noop`: statements to skip (the memo fill)."""
+    from ..normal import is_pure
+    env = {}
+    forced = forced or {}
+    generic = []
+
+    def num(v, what):
+        if not isinstance(v, _Aff):
+            raise _Unsupported('%s is not a number' % what)
+        return v
+
+    def const(v, what):
+        v = num(v, what)
+        if v.b != 0:
+            raise _Unsupported('%s depends on the buffer' % what)
+        return v.c
+
+    def truth(v):
+        if isinstance(v, bool):
+            return v
+        if isinstance(v, _Aff) and v.b == 0:
+            return v.c != 0
+        raise _Unsupported('truth value of a symbolic value')
+
+    def ev(e):
+        if isinstance(e, ast.Constant):
+            if isinstance(e.value, bool):
+                return e.value
+            if type(e.value) in (int, float):
+                return _Aff(0, e.value)
+            return _Tok('<constant>')
+        if isinstance(e, ast.Name):
+            if e.id in env:
+                return env[e.id]
+            if e.id == cs_:
+                return _Aff(0, S)
+            if e.id == bw:
+                return _Aff(1, 0)
+            if e.id == hb:
+                return _Tok(hb)
+            raise _Unsupported('name %s' % e.id)
+        if isinstance(e, ast.Tuple):
+            return tuple(ev(x) for x in e.elts)
+        if isinstance(e, ast.Subscript):
+            base = ev(e.value)
+            if isinstance(base, tuple):
+                k = const(ev(e.slice), 'a tuple index')
+                if k != int(k) or not -len(base) <= int(k) < len(base):
+                    raise _Unsupported('tuple index')
+                return base[int(k)]
+            if isinstance(base, _Tok) and base.name == hb and not isinstance(e.slice, (ast.Slice, ast.Tuple)):
+                k = const(ev(e.slice), 'an index into the boundaries')
+                if k != int(k):
+                    raise _Unsupported('non-integer index')
+                if not -len(lit) <= int(k) < len(lit):
+                    raise _Raises('%s[%d] with %d boundaries' % (hb, int(k), len(lit)))
+                return _Aff(0, lit[int(k)])
+            raise _Unsupported('subscript %s' % u(e)[:60])
+        if isinstance(e, ast.Call) and not e.keywords:
+            cn = call_name(e) or ''
+            if cn in ('int', 'float') and len(e.args) == 1:
+                v = num(ev(e.args[0]), 'argument of %s()' % cn)
+                if cn == 'int' and (v.b != 0 or v.c != int(v.c)):
+                    raise _Unsupported('int() of a non-integral value')
+                return v
+            if cn == 'len' and len(e.args) == 1:
+                v = ev(e.args[0])
+                if isinstance(v, _Tok) and v.name == hb:
+                    return _Aff(0, len(lit))
+            if cn == 'bool' and len(e.args) == 1:
+                return truth(ev(e.args[0]))
+            raise _Unsupported('call %s' % u(e)[:60])
+        if isinstance(e, ast.BinOp):
+            l, r = num(ev(e.left), u(e.left)[:40]), num(ev(e.right), u(e.right)[:40])
+            if isinstance(e.op, ast.Add):
+                return _Aff(l.b + r.b, l.c + r.c)
+            if isinstance(e.op, ast.Sub):
+                return _Aff(l.b - r.b, l.c - r.c)
+            if isinstance(e.op, ast.Mult) and (l.b == 0 or r.b == 0):
+                return _Aff(l.b * r.c + r.b * l.c, l.c * r.c)
+            if isinstance(e.op, ast.Div) and r.b == 0 and r.c != 0:
+                return _Aff(l.b / r.c, l.c / r.c)
+            if isinstance(e.op, (ast.Mod, ast.FloorDiv)) and l.b == 0 and r.b == 0 and r.c != 0:
+                return _Aff(0, l.c % r.c if isinstance(e.op, ast.Mod) else l.c // r.c)
+            raise _Unsupported('arithmetic %s' % u(e)[:60])
+        if isinstance(e, ast.UnaryOp):
+            if isinstance(e.op, ast.Not):
+                return not truth(ev(e.operand))
+            v = num(ev(e.operand), u(e.operand)[:40])
+            if isinstance(e.op, ast.USub):
+                return _Aff(-v.b, -v.c)
+            if isinstance(e.op, ast.UAdd):
+                return v
+            raise _Unsupported('operator')
+        if isinstance(e, ast.Compare):
+            if id(e) in forced:
+                return forced[id(e)]
+            left = ev(e.left)
+            for op, right in zip(e.ops, e.comparators):
+                r = ev(right)
+                if type(op) not in _CMP:
+                    raise _Unsupported('comparison %s' % u(e)[:60])
+                l_, r_ = num(left, u(e)[:40]), num(r, u(e)[:40])
+                if abs(l_.b - r_.b) > 1e-12:
+                    if not isinstance(op, (ast.Eq, ast.NotEq)):
+                        raise _Unsupported('the outcome of `%s` depends on the buffer width' % u(e)[:60])
+                    # two different affine functions of the buffer coincide for ONE buffer width only: the outcome
+                    # for every other width is taken, and the caller is told that one width was left out
+                    generic.append(u(e)[:60])
+                    if isinstance(op, ast.Eq):
+                        return False
+                elif not _CMP[type(op)](l_.c, r_.c):
+                    return False
+                left = r
+            return True
+        if isinstance(e, ast.BoolOp):
+            v = None
+            for x in e.values:
+                v = ev(x)
+                if truth(v) != isinstance(e.op, ast.And):
+                    return v
+            return v
+        if isinstance(e, ast.IfExp):
+            return ev(e.body) if truth(ev(e.test)) else ev(e.orelse)
+        raise _Unsupported('expression %s' % u(e)[:60])
+
+    def assign(t, v):
+        if isinstance(t, ast.Name):
+            if t.id in (cs_, hb, bw):
+                raise _Unsupported('parameter %s is rebound' % t.id)
+            env[t.id] = v
+        elif isinstance(t, (ast.Tuple, ast.List)) and isinstance(v, tuple) and len(v) == len(t.elts):
+            for te, ve in zip(t.elts, v):
+                assign(te, ve)
+        else:
+            raise _Unsupported('assignment target %s' % u(t)[:40])
+
+    def run(stmts):
+        for st in stmts:
+            if st in noop or isinstance(st, ast.Pass):
+                continue
+            if isinstance(st, ast.Expr):
+                if isinstance(st.value, ast.Constant) or (isinstance(st.value, ast.Call) and
+                                                         (call_name(st.value) or '').split('.')[0] in ('logger', 'logging', 'print')):
+                    continue
+                raise _Unsupported('statement %s' % u(st)[:60])
+            if isinstance(st, (ast.Assign, ast.AnnAssign)) and st.value is not None:
+                try:
+                    v = ev(st.value)
+                except _Unsupported:
+                    tg = st.targets if isinstance(st, ast.Assign) else [st.target]
+                    if not is_pure(st.value) or not all(isinstance(t, ast.Name) for t in tg):
+                        raise
+                    v = _Tok('<opaque>')        # a pure value without a model (a memo key): harmless unless it is used as a number
+                for t in (st.targets if isinstance(st, ast.Assign) else [st.target]):
+                    assign(t, v)
+                continue
+            if isinstance(st, ast.AugAssign) and isinstance(st.target, ast.Name):
+                v = ev(ast.BinOp(left=ast.Name(id=st.target.id, ctx=ast.Load()), op=st.op, right=st.value))
+                assign(st.target, v)
+                continue
+            if isinstance(st, ast.If):
+                t = forced[id(st.test)] if id(st.test) in forced else truth(ev(st.test))
+                r = run(st.body if t else st.orelse)
+                if r is not None:
+                    return r
+                continue
+            if isinstance(st, ast.Return):
+                return ('return', ev(st.value) if st.value is not None else None)
+            raise _Unsupported('statement %s' % type(st).__name__)
+        return None
+    r = run(fn.body)
+    return (r[1] if r is not None else None), generic
+
+
+def d3_gates(ck, mod, memo=None):
+    """get_gates is decided SEMANTICALLY: for every literal boundary set the
+    library passes and every state of it (the finite domain the property
+    quantifies over) the loop-free body is evaluated with the buffer kept as a
+    symbol, and the returned pair is compared with
+        lower = (360 if boundaries[s] == 0 else boundaries[s]) - buffer
+        upper = (0 if boundaries[s + 1] == 360 else boundaries[s + 1]) + buffer
+    as affine functions of the buffer.  How the function spells this
+    (conditional expressions, temporaries, guard order, tests on the state
+    index or on the boundary value, one or two widening statements) does not
+    matter; a body the evaluator has no model for is reported as incomplete."""
     rule = 'C20.D3.gates'
     F = GATES
     fn = mod.func(F)
     ck.analysed(mod, fn)
     fi = finfo(mod, fn)
-    cfg = fi.cfg
     if len(params(fn)) < 3:
         ck.missing(rule, 'get_gates(cur_state, hard_boundaries, buffer_width): signature not recognised')
         return
     cs_, hb, bw = params(fn)[:3]
-    rets = returns_of(fn)
-    if len(rets) != 1 or not (isinstance(rets[0].value, ast.Tuple) and len(rets[0].value.elts) == 2 and
-                              all(isinstance(e, ast.Name) for e in rets[0].value.elts)):
-        ck.missing(rule + '.order', 'get_gates does not end in a single `return <lower name>, <upper name>`')
+    sets = literal_boundary_sets(ck, mod)
+    if not sets:
+        ck.missing(rule + '.lookup', 'no literal boundary set is passed to _rotamers: the gates cannot be evaluated')
         return
-    ret = rets[0]
-    L, U = [e.id for e in ret.value.elts]
-    idx = ['int(%s)' % cs_, cs_]
-    lo_forms = ['%s[%s]' % (hb, k) for k in idx]
-    up_forms = ['%s[%s + 1]' % (hb, k) for k in idx] + ['%s[1 + %s]' % (hb, k) for k in idx]
-
-    def initial(X):
-        ds = [a for a in assigns_to(fn, X) if isinstance(a, ast.Assign) and fi.rd.defs_at(a, X) == {'UNBOUND'} and fi.def_value(a, X) is not None]
-        return ds[0] if len(ds) == 1 else None
-    l0, u0 = initial(L), initial(U)
-    if l0 is None or u0 is None:
-        ck.missing(rule + '.lookup', 'initial assignment of the returned gates %s / %s' % (L, U))
+    forced, noop = {}, []
+    mm = (memo or {}).get(fn)
+    if mm:
+        # a verified memo table (D5): a stored entry equals what the call computes, so the miss path is the function
+        for n in walk_local(fn):
+            if isinstance(n, ast.Compare) and len(n.ops) == 1 and isinstance(n.ops[0], (ast.In, ast.NotIn)) \
+                    and isinstance(n.comparators[0], ast.Name) and n.comparators[0].id == mm['table']:
+                forced[id(n)] = isinstance(n.ops[0], ast.NotIn)
+        noop = [st for st, _v in mm['fills']]
+    rets = [r for r in returns_of(fn) if not (mm and r in mm['hits'])]
+    site = rets[-1] if rets else fn
+    bad = {'order': [], 'lookup': [], 'wrap': [], 'widen': []}
+    n_cases, all_swapped, unsure = 0, True, []
+    try:
+        for lit in sorted(sets):
+            for S in range(len(lit) - 1):
+                n_cases += 1
+                where = 'boundaries %s, state %d' % (list(lit), S)
+                try:
+                    got, generic = _gates_run(fn, cs_, hb, bw, lit, S, forced, noop)
+                except _Raises as e:
+                    all_swapped = False
+                    bad['lookup'].append('%s: IndexError (%s)' % (where, e))
+                    continue
+                if not (isinstance(got, tuple) and len(got) == 2 and all(isinstance(g, _Aff) for g in got)):
+                    raise _Unsupported('the value returned for %s is not a pair of numbers' % where)
+                seam_lo, seam_up = lit[S] == 0, lit[S + 1] == 360
+                want = (_Aff(-1, 360 if seam_lo else lit[S]), _Aff(1, 0 if seam_up else lit[S + 1]))
+                if got == want:
+                    all_swapped = False
+                    if generic:
+                        # equal for all buffer widths but the one at which a test on a widened value flips
+                        unsure.append('%s: the outcome of `%s` depends on the buffer width' % (where, generic[0]))
+                    continue
+                if got == (want[1], want[0]):
+                    bad['order'].append('%s: returns (%r, %r)' % (where, got[0], got[1]))
+                    continue
+                all_swapped = False
+                for g, w, which, seam, marker in ((got[0], want[0], 'lower', seam_lo, 360), (got[1], want[1], 'upper', seam_up, 0)):
+                    if g == w:
+                        continue
+                    kind = 'widen' if abs(g.b - w.b) > 1e-9 else 'wrap' if (seam or abs(g.c - marker) < 1e-9) else 'lookup'
+                    bad[kind].append('%s: %s gate is %r, must be %r' % (where, which, g, w))
+    except _Unsupported as e:
+        ck.missing(rule + '.lookup', 'get_gates is not a loop-free computation over the state, the boundaries and the buffer that the evaluator has a model for (%s)' % e)
         return
-    scope = {cs_, hb, bw, L, U}
-    lv, uv = fi.expand(fi.def_value(l0, L)), fi.expand(fi.def_value(u0, U))
-    swapped = classify(lv, up_forms)[0] == 'match' and classify(uv, lo_forms)[0] == 'match'
-    ck.check(not swapped, rule + '.order', mod, ret, F, u(ret), 'returns (lower, upper)',
-             'get_gates must return (lower gate, upper gate): `%s` starts as %s and `%s` as %s' % (L, u(lv), U, u(uv)))
-    if swapped:
-        L, U, l0, u0, lv, uv = U, L, u0, l0, uv, lv
-    ck.decide(classify(lv, lo_forms, scope=scope), rule + '.lookup', mod, l0, F, '%s  [= %s]' % (u(l0), u(canon(lv))),
-              'the lower gate starts as the lower hard boundary of the CURRENT basin',
-              'the lower gate must start as %s[state]' % hb)
-    ck.decide(classify(uv, up_forms, scope=scope), rule + '.lookup', mod, u0, F, '%s  [= %s]' % (u(u0), u(canon(uv))),
-              'the upper gate starts as the upper hard boundary of the CURRENT basin',
-              'the upper gate must start as %s[state + 1]' % hb)
-
-    # --- per gate: seam substitution (guarded constant store) then widening
-    last = ['len(%s) - 1 - 1' % hb, 'len(%s) - 2' % hb]
-    seam = {
-        L: (360, _both(['%s == 0' % f for f in lo_forms] + ['%s == 0' % k for k in idx] + ['%s == %s[0]' % (f, hb) for f in lo_forms]),
-            'the basin that starts at the 0/360 seam gets its lower gate moved to 360',
-            'the lower gate must wrap to 360 exactly for the basin whose lower boundary is 0 (first basin)'),
-        U: (0, _both(['%s == 360' % f for f in up_forms] + ['%s == %s[-1]' % (f, hb) for f in up_forms] +
-                     ['%s == %s' % (k, n) for k in idx for n in last] +
-                     ['%s + 1 == len(%s) - 1' % (k, hb) for k in idx] + ['1 + %s == len(%s) - 1' % (k, hb) for k in idx]),
-            'the basin that ends at the 0/360 seam gets its upper gate moved to 0',
-            'the upper gate must wrap to 0 exactly for the basin whose upper boundary is 360, i.e. the LAST basin '
-            '(index n_basins - 1); a test that never holds for a valid state makes the last basin lose its buffer across the seam'),
+    if unsure and not any(bad.values()):
+        ck.missing(rule + '.wrap', 'get_gates: %s' % '; '.join(unsure[:2]))
+        return
+    if bad['order'] and not all_swapped:
+        bad['lookup'] += bad['order']
+        bad['order'] = []
+    texts = {
+        'order': ('order of the returned pair', 'returns (lower, upper)',
+                  'get_gates must return (lower gate, upper gate) - is_buffered_transition tells the wrap-around basin by upper < lower'),
+        'lookup': ('gates of a basin away from the 0/360 seam', 'the gates start as the hard boundaries of the CURRENT basin: boundaries[state] and boundaries[state + 1]',
+                   'away from the seam the lower gate must be boundaries[state] - buffer and the upper gate boundaries[state + 1] + buffer'),
+        'wrap': ('gates of the basins at the 0/360 seam', 'the basin that starts at 0 gets its lower gate moved to 360, the basin that ends at 360 its upper gate moved to 0',
+                 'the lower gate must wrap to 360 exactly for the basin whose lower boundary is 0 (first basin) and the upper gate to 0 exactly for the basin '
+                 'whose upper boundary is 360 (the LAST basin, index n_basins - 1), before the buffer is applied; a seam test that never holds for a valid state '
+                 'makes that basin lose its buffer across the seam'),
+        'widen': ('widening of the gates by the buffer', 'basin widened by the buffer on both sides (lower gate - buffer, upper gate + buffer), once',
+                  'the gates must be widened OUTWARDS, once: lower gate - buffer_width and upper gate + buffer_width'),
     }
-    widen_form = {L: ['%s - %s' % (L, bw)], U: ['%s + %s' % (U, bw), '%s + %s' % (bw, U)]}
-    for X, x0 in ((L, l0), (U, u0)):
-        which = 'lower' if X == L else 'upper'
-        const, forms, okmsg, badmsg = seam[X]
-        others = [a for a in assigns_to(fn, X) if a is not x0]
-        wraps = [a for a in others if isinstance(a, ast.Assign) and len(a.targets) == 1 and isinstance(a.targets[0], ast.Name)
-                 and const_value(a.value) is not None]
-        widens = [a for a in others if a not in wraps and (isinstance(a, ast.AugAssign) or (
-            isinstance(a, ast.Assign) and isinstance(a.value, ast.BinOp) and X in names_loaded(a.value)))]
-        rest = [a for a in others if a not in wraps and a not in widens]
-        if rest:
-            ck.missing(rule + '.wrap', 'assignment `%s` to the %s gate not recognised' % (u(rest[0]), which))
-            continue
-        if not wraps:
-            ck.bad(rule + '.wrap', mod, fn, F, '%s wrap' % which, 'no wrap-around of the %s gate at the 0/360 seam' % which)
-        for a in wraps:
-            atoms = guard_atoms(fi, a)
-            if atoms is None or len(atoms) > 1 or (atoms and not isinstance(atoms[0], Cmp)):
-                v = ('far', 0, None)
-            elif not atoms:
-                v = ('near', 0, None)           # unconditional substitution
-            else:
-                v = classify(_cmp_node(fi, atoms[0], {L: (l0, lv), U: (u0, uv)}), forms, scope=scope)
-                if v[0] == 'match' and const_value(a.value) != const:
-                    v = ('near', 1, '%s = %d' % (X, const))
-            ck.decide(v, rule + '.wrap', mod, a, F, 'if %s: %s' % (' and '.join(repr(c) for c in atoms or []) or '<unconditional>', u(a)), okmsg, badmsg)
-        if len(widens) != 1:
-            ck.check(False, rule + '.widen', mod, widens[0] if widens else fn, F, '; '.join(u(s) for s in widens) or '%s gate widening' % which,
-                     '', 'the %s gate must be widened by the buffer exactly once' % which)
-            continue
-        w = widens[0]
-        if isinstance(w, ast.AugAssign):
-            val = ast.BinOp(left=ast.Name(id=X, ctx=ast.Load()), op=w.op, right=fi.expand(w.value))
+    for kind in ('order', 'lookup', 'wrap', 'widen'):
+        construct, okmsg, badmsg = texts[kind]
+        if bad[kind]:
+            ck.bad(rule + '.' + kind, mod, site, F, construct, '%s; evaluated with the buffer as a symbol: %s' % (badmsg, '; '.join(bad[kind][:3])))
         else:
-            val = fi.expand(w.value, stop=(X,))
-        v = classify(val, widen_form[X], scope={X, bw})
-        if v[0] == 'match' and fi.rd.defs_at(ret, X) != {w}:
-            v = ('far', 0, None)
-        ck.decide(v, rule + '.widen', mod, w, F, u(w), 'basin widened by the buffer on the %s side (%s)' % (which, widen_form[X][0]),
-                  'the gates must be widened OUTWARDS: lower gate - buffer_width and upper gate + buffer_width')
-        early = [a for a in wraps if cfg.reachable(w, a)]
-        ck.check(not early, rule + '.widen', mod, w, F, 'wrap before widening (%s)' % which,
-                 'seam values are substituted before the buffer is applied', 'the seam substitution must precede the widening')
+            ck.ok(rule + '.' + kind, mod, site, '%s (%d boundary set / state pairs)' % (construct, n_cases), okmsg)
+    ck.floor(rule, n_cases, 4, 'boundary set / state pairs evaluated for get_gates')
 
 
 # --- exit test ---------------------------------------------------------------
@@ -882,12 +1138,21 @@ def _interpret(fn, env, calls, forced=None):
     outcome of `if` tests that are decided by the caller's truth table
     instead of being evaluated (tests over opaque values).  Arithmetic,
     subscripts and int()/float() of an opaque value are opaque."""
+    from ..normal import is_pure
     env = dict(env)
     forced = forced or {}
 
     def ev(e):
         if isinstance(e, ast.Constant):
             return e.value
+        if isinstance(e, ast.Subscript) and isinstance(e.value, (ast.Name, ast.Call, ast.Tuple)):
+            base = ev(e.value)
+            if isinstance(base, tuple):
+                # component of a concrete tuple (`gates = get_gates(...)`; `gates[0]`)
+                k = const_value(e.slice)
+                if type(k) is int and -len(base) <= k < len(base):
+                    return base[k]
+                raise _Unsupported('expression %s' % u(e)[:60])
         if isinstance(e, (ast.Subscript, ast.BinOp)) or (isinstance(e, ast.UnaryOp) and isinstance(e.op, (ast.USub, ast.UAdd))) or \
                 (isinstance(e, ast.Call) and call_name(e) in ('int', 'float') and len(e.args) == 1 and not e.keywords):
             parts = [ev(x) for x in ast.iter_child_nodes(e) if isinstance(x, ast.expr) and not (isinstance(x, ast.Name) and x.id in ('int', 'float'))]
@@ -948,7 +1213,14 @@ def _interpret(fn, env, calls, forced=None):
                     continue
                 raise _Unsupported('statement %s' % u(s)[:60])
             if isinstance(s, ast.Assign):
-                v = ev(s.value)
+                try:
+                    v = ev(s.value)
+                except _Unsupported:
+                    # a pure expression the interpreter has no model for (np.digitize(...) - 1): an opaque
+                    # value - harmless unless its truth value is taken or it reaches the result
+                    if not is_pure(s.value) or not all(isinstance(t, ast.Name) for t in s.targets):
+                        raise
+                    v = _Tok('<opaque>')
                 for t in s.targets:
                     assign(t, v)
                 continue
@@ -966,6 +1238,111 @@ def _interpret(fn, env, calls, forced=None):
         return None
     r = run(fn.body)
     return r[1] if r is not None else None
+
+
+def _index_eval(e, K, S, n, cs_, na, hb):
+    """Value of an expression over basin INDICES for a boundary set with `n`
+    basins: S = the current state, K = the basin that contains the new angle
+    (np.digitize(angle, boundaries) == K + 1), len(boundaries) == n + 1;
+    integer arithmetic, abs/min/max, comparisons, and/or/not.  Raises
+    _Unsupported for anything else (the angle itself, a gate, the buffer)."""
+    def ev(e):
+        if isinstance(e, ast.Constant) and type(e.value) in (int, bool):
+            return e.value
+        if isinstance(e, ast.Name) and e.id == cs_:
+            return S
+        if isinstance(e, ast.Call) and not e.keywords:
+            cn = call_name(e) or ''
+            a = e.args
+            if cn == 'int' and len(a) == 1:
+                v = ev(a[0])
+                return int(v)
+            if cn in ('np.digitize', 'numpy.digitize') and len(a) in (2, 3) and u(a[0]) == na and u(a[1]) == hb \
+                    and (len(a) == 2 or const_value(a[2]) is False):
+                return K + 1
+            if cn in ('np.searchsorted', 'numpy.searchsorted') and len(a) == 3 and u(a[0]) == hb and u(a[1]) == na and const_value(a[2]) == 'right':
+                return K + 1
+            if cn == 'len' and len(a) == 1 and u(a[0]) == hb:
+                return n + 1
+            if cn == 'abs' and len(a) == 1:
+                return abs(ev(a[0]))
+            if cn in ('min', 'max') and len(a) >= 2:
+                vs = [ev(x) for x in a]
+                return min(vs) if cn == 'min' else max(vs)
+            raise _Unsupported('call %s' % cn)
+        if isinstance(e, ast.Subscript) and u(e.value) == '%s.shape' % hb and const_value(e.slice) == 0:
+            return n + 1
+        if isinstance(e, ast.BinOp) and isinstance(e.op, (ast.Add, ast.Sub, ast.Mult, ast.Mod, ast.FloorDiv)):
+            l, r = ev(e.left), ev(e.right)
+            if isinstance(e.op, (ast.Mod, ast.FloorDiv)) and r == 0:
+                raise _Unsupported('division by zero')
+            return {ast.Add: lambda: l + r, ast.Sub: lambda: l - r, ast.Mult: lambda: l * r, ast.Mod: lambda: l % r,
+                    ast.FloorDiv: lambda: l // r}[type(e.op)]()
+        if isinstance(e, ast.UnaryOp) and isinstance(e.op, ast.USub):
+            return -ev(e.operand)
+        if isinstance(e, ast.UnaryOp) and isinstance(e.op, ast.Not):
+            return not ev(e.operand)
+        if isinstance(e, ast.BoolOp):
+            v = None
+            for x in e.values:
+                v = ev(x)
+                if bool(v) != isinstance(e.op, ast.And):
+                    return v
+            return v
+        if isinstance(e, ast.Compare):
+            left = ev(e.left)
+            for op, right in zip(e.ops, e.comparators):
+                r = ev(right)
+                if type(op) not in _CMP:
+                    raise _Unsupported('comparison')
+                if not _CMP[type(op)](left, r):
+                    return False
+                left = r
+            return True
+        raise _Unsupported('expression %s' % u(e)[:60])
+    return ev(e)
+
+
+def _index_region(x, ns, cs_, na, hb):
+    """{(n, K, S): truth value} of the test `x` over basin indices for every
+    basin count in `ns`; None if `x` is not a test over basin indices."""
+    out = {}
+    try:
+        for n in ns:
+            for K in range(n):
+                for S in range(n):
+                    out[(n, K, S)] = bool(_index_eval(x, K, S, n, cs_, na, hb))
+    except _Unsupported:
+        return None
+    return out
+
+
+def literal_boundary_sets(ck, mod, rule=None):
+    """{literal boundary tuple: [wrapper functions that pass it to _rotamers]}."""
+    fn = mod.func('_rotamers')
+    hb = params(fn)[1]
+    sets = {}
+    for q, g in mod.functions.items():
+        if g is fn or '.' in q:
+            continue
+        gfi = None
+        for c in calls_in(g):
+            if call_name(c) != '_rotamers':
+                continue
+            b = bind_args(c, params(fn))
+            if b is None or hb not in b:
+                if rule:
+                    ck.missing(rule, 'boundaries argument of `%s` in %s' % (u(c)[:80], q))
+                continue
+            gfi = gfi or finfo(mod, g)
+            v = gfi.expand(b[hb])
+            vals = [const_value(x) for x in v.elts] if isinstance(v, (ast.List, ast.Tuple)) else None
+            if not vals or any(type(x) not in (int, float) for x in vals) or len(vals) < 2:
+                if rule:
+                    ck.missing(rule, 'boundary set passed by %s is not a literal list: %s' % (q, u(v)[:80]))
+                continue
+            sets.setdefault(tuple(vals), []).append(q)
+    return sets
 
 
 def d3_exit_test(ck, mod):
@@ -991,30 +1368,49 @@ def d3_exit_test(ck, mod):
               'is_buffered_transition must ask for get_gates(%s, %s, %s)' % (cs_, hb, bw))
     un = [s for s in walk_local(ft) if isinstance(s, ast.Assign) and len(s.targets) == 1 and isinstance(s.targets[0], (ast.Tuple, ast.List))
           and value_call(fi, s.value, GATES) is call]
-    if len(un) != 1 or len(un[0].targets[0].elts) != 2 or not all(isinstance(e, ast.Name) for e in un[0].targets[0].elts):
+    # ... or the pair kept under one name and taken apart by index (`g = get_gates(...)`; g[0], g[1]).
+    # Which component plays which role is decided by the interpretation below (the call yields the
+    # pair (lower, upper)); here only the spelling is recognised, for the messages.
+    held = [s for s in walk_local(ft) if isinstance(s, ast.Assign) and len(s.targets) == 1 and isinstance(s.targets[0], ast.Name)
+            and s.value is call]
+    if len(un) == 1 and len(un[0].targets[0].elts) == 2 and all(isinstance(e, ast.Name) for e in un[0].targets[0].elts):
+        LO, UP = [e.id for e in un[0].targets[0].elts]
+        ck.ok(rule + '.order', mod, un[0], u(un[0]), '(lower, upper) unpacked in the order get_gates returns them: %s = lower gate, %s = upper gate' % (LO, UP))
+    elif len(held) == 1 and not un and not assigns_to(ft, held[0].targets[0].id)[1:] and not fi._mutated_in_place(held[0].targets[0].id):
+        g = held[0].targets[0].id
+        LO, UP = '%s[0]' % g, '%s[1]' % g
+        ck.ok(rule + '.order', mod, held[0], u(held[0]), 'the pair get_gates returns is taken apart by index: %s = lower gate, %s = upper gate' % (LO, UP))
+    else:
         ck.missing(rule + '.order', 'unpacking `<lower>, <upper> = get_gates(...)` in is_buffered_transition')
         return {}
-    LO, UP = [e.id for e in un[0].targets[0].elts]
-    ck.ok(rule + '.order', mod, un[0], u(un[0]), '(lower, upper) unpacked in the order get_gates returns them: %s = lower gate, %s = upper gate' % (LO, UP))
 
     # --- tests that involve neither a gate nor the angle (state / boundaries / buffer only) are
     # not order comparisons of the three numbers: each is recognised by its form and then decided
     # by a truth table.  The one form understood: "the widened basin spans the whole circle"
     # (width of the current basin + 2 * buffer >= 360), under which the basin cannot be left.
-    covering = []
+    covering, index = [], []
+    basins = sorted({len(lit) - 1 for lit in literal_boundary_sets(ck, mod)})
     for st in walk_local(ft):
         if not isinstance(st, ast.If):
             continue
-        x = canon(fi.expand(st.test))
-        nm = names_loaded(x) - {'int', 'float'}
-        if not nm or not nm <= {cs_, hb, bw}:
+        x = _pos(inline_values(mod, fi.expand(st.test)))
+        nm = names_loaded(x) - {'int', 'float', 'np', 'numpy', 'abs', 'min', 'max', 'len'}
+        if not nm or not nm <= {cs_, hb, bw, na}:
+            continue
+        # a test over basin INDICES (the state, the basin np.digitize puts the new angle in, the number
+        # of basins): decided below over the finitely many index pairs of the library's boundary sets
+        region = _index_region(x, basins, cs_, na, hb) if basins and bw not in nm else None
+        if region is not None:
+            index.append((st, x, region))
+            continue
+        if na in nm:
             continue
         if not _is_covering_test(x, cs_, hb, bw):
             ck.missing(rule + '.exit-test', 'a test of is_buffered_transition over the state / boundaries / buffer is not recognised: %s' % u(x)[:120])
             return {}
         covering.append(st)
-    if len(covering) > 2:
-        ck.missing(rule + '.exit-test', '%d covering tests in is_buffered_transition' % len(covering))
+    if len(covering) > 2 or len(index) > 2:
+        ck.missing(rule + '.exit-test', '%d covering tests, %d tests over basin indices in is_buffered_transition' % (len(covering), len(index)))
         return {}
 
     # --- the decision itself, exactly: a boolean function of order comparisons
@@ -1022,23 +1418,70 @@ def d3_exit_test(ck, mod):
     def spec(lo, up, a):
         return (up < lo and up <= a <= lo) or (lo < up and not (lo <= a <= up))
     cases = {'wrap': [], 'ordinary': [], 'degenerate': [], 'covering': []}
+    shortcuts = []          # (index truth values, index pairs of that region, 'True' / 'False' / None = mixed)
     try:
-        for truth in itertools.product((False, True), repeat=len(covering)):
-            forced = {id(st.test): t for st, t in zip(covering, truth)}
-            for lo, up, a in itertools.product((0, 1, 2), repeat=3):
-                env = {cs_: _Tok(cs_), hb: _Tok(hb), bw: _Tok(bw), na: a}
-                got = _interpret(ft, env, {GATES: lambda e, lo=lo, up=up: (lo, up)}, forced)
-                if isinstance(got, _Tok) or isinstance(got, tuple):
-                    raise _Unsupported('non-boolean result')
-                want = False if any(truth) else bool(spec(lo, up, a))
-                kind = 'covering' if any(truth) else 'wrap' if up < lo else 'ordinary' if lo < up else 'degenerate'
-                if bool(got) != want:
-                    cases[kind].append('%s=%d, %s=%d, %s=%d: returns %s, expected %s' % (LO, lo, UP, up, na, a, bool(got), want))
+        for ti in itertools.product((False, True), repeat=len(index)):
+            pairs = sorted(k for k in (index[0][2] if index else {None: True})
+                           if all(reg[k] == t for (_st, _x, reg), t in zip(index, ti)))
+            if index and not pairs:
+                continue                    # this combination of index tests never holds for the library's boundary sets
+            for truth in itertools.product((False, True), repeat=len(covering)):
+                forced = {id(st.test): t for st, t in zip(covering, truth)}
+                forced.update({id(st.test): t for (st, _x, _r), t in zip(index, ti)})
+                local = {'wrap': [], 'ordinary': [], 'degenerate': [], 'covering': []}
+                results = set()
+                for lo, up, a in itertools.product((0, 1, 2), repeat=3):
+                    env = {cs_: _Tok(cs_), hb: _Tok(hb), bw: _Tok(bw), na: a}
+                    got = _interpret(ft, env, {GATES: lambda e, lo=lo, up=up: (lo, up)}, forced)
+                    if isinstance(got, _Tok) or isinstance(got, tuple):
+                        raise _Unsupported('non-boolean result')
+                    want = False if any(truth) else bool(spec(lo, up, a))
+                    kind = 'covering' if any(truth) else 'wrap' if up < lo else 'ordinary' if lo < up else 'degenerate'
+                    results.add(bool(got))
+                    if bool(got) != want:
+                        local[kind].append('%s=%d, %s=%d, %s=%d: returns %s, expected %s' % (LO, lo, UP, up, na, a, bool(got), want))
+                if index and not any(truth) and any(local.values()):
+                    # in this region of index pairs the function does not apply the gate test
+                    shortcuts.append((ti, pairs, str(results.pop()) if len(results) == 1 else None))
+                    continue
+                for k in local:
+                    cases[k] += local[k]
     except _Unsupported as e:
         ck.missing(rule + '.exit-test', 'is_buffered_transition is not a loop-free decision over order comparisons of the gates and the angle (%s)' % e)
         return {}
+    index_bad = False
+    for ti, pairs, const in shortcuts:
+        shown = ' and '.join(('' if t else 'not ') + '(%s)' % u(x) for (_st, x, _r), t in zip(index, ti))
+        st0 = index[0][0]
+        adjacent = [(n, K, S) for n, K, S in pairs if K == S or (K - S) % n in (1, n - 1)]
+        other = [(n, K, S) for n, K, S in pairs if K != S]
+        if const == 'True' and adjacent:
+            n, K, S = adjacent[0]
+            index_bad = True
+            ck.bad(rule + '.exit-test', mod, st0, F, 'transition decided from basin indices alone',
+                   'when %s holds, is_buffered_transition reports a transition without consulting the gates. For a boundary set with %d basins that '
+                   'is the case for state %d and an angle in basin %d%s: %s. An angle just across that boundary, closer to it than the buffer, is still '
+                   'inside basin %d widened by the buffer, so the state must NOT change - the hysteresis is lost exactly there (index pairs: %s)' % (
+                       shown, n, S, K, '' if K != S else ' (the current basin itself)',
+                       'these two basins are neighbours through the 0/360 seam although their indices differ by %d' % abs(K - S) if abs(K - S) > 1 else
+                       'these basins share a boundary', S, ', '.join('n=%d: state %d -> basin %d' % (n_, S_, K_) for n_, K_, S_ in adjacent[:4])))
+        elif const == 'False' and other:
+            n, K, S = other[0]
+            index_bad = True
+            ck.bad(rule + '.exit-test', mod, st0, F, 'no transition decided from basin indices alone',
+                   'when %s holds, is_buffered_transition reports NO transition without consulting the gates; for %d basins that includes state %d '
+                   'with the angle in basin %d: with a zero buffer (admitted) an angle inside another basin has left the current one and the state '
+                   'must change (zero buffer = plain binning)' % (shown, n, S, K))
+        elif const == 'False':
+            ck.ok(rule + '.exit-test', mod, st0, 'no transition while the angle is in the current basin (%s)' % shown,
+                  'an angle inside the current basin is inside the widened basin: no transition, whatever the gates')
+        else:
+            ck.missing(rule + '.exit-test', 'a decision of is_buffered_transition taken from basin indices (%s) is not understood: '
+                       'result %s for the index pairs %s' % (shown, const or 'depends on the gates but differs from the gate test', pairs[:6]))
+            return {}
     if covering:
-        ck.check(not cases['covering'], rule + '.exit-test', mod, covering[0], F, 'widened basin spans the circle (%s): no transition' % fi.xu(covering[0].test),
+        ck.check(not cases['covering'], rule + '.exit-test', mod, covering[0], F,
+                 'widened basin spans the circle (%s): no transition' % u(canon(inline_values(mod, fi.expand(covering[0].test)))),
                  'a basin whose widened width reaches 360 degrees cannot be left',
                  'when the width of the current basin plus twice the buffer reaches 360 the angle cannot leave it: the result must be False; '
                  'counter-example: ' + '; '.join(cases['covering'][:2]))
@@ -1199,25 +1642,7 @@ def d3_buffer_range(ck, mod, exit_info):
         ck.missing(rule, 'signature of _rotamers')
         return
     _ang, hb, bw = params(fn)[:3]
-    sets = {}
-    for q, g in mod.functions.items():
-        if g is fn or '.' in q:
-            continue
-        gfi = None
-        for c in calls_in(g):
-            if call_name(c) != F:
-                continue
-            b = bind_args(c, params(fn))
-            if b is None or hb not in b:
-                ck.missing(rule, 'boundaries argument of `%s` in %s' % (u(c)[:80], q))
-                continue
-            gfi = gfi or finfo(mod, g)
-            v = gfi.expand(b[hb])
-            vals = [const_value(x) for x in v.elts] if isinstance(v, (ast.List, ast.Tuple)) else None
-            if not vals or any(type(x) not in (int, float) for x in vals) or len(vals) < 2:
-                ck.missing(rule, 'boundary set passed by %s is not a literal list: %s' % (q, u(v)[:80]))
-                continue
-            sets.setdefault(tuple(vals), []).append(q)
+    sets = literal_boundary_sets(ck, mod, rule)
     ck.floor(rule, len(sets), 2, 'literal boundary sets passed to _rotamers')
     rets = returns_of(fn)
     if len(rets) != 1:
@@ -1230,7 +1655,9 @@ def d3_buffer_range(ck, mod, exit_info):
     if fi.rd.defs_at(rets[0], bw) != {'PARAM'}:
         ck.missing(rule, '%s is rebound inside _rotamers' % bw)
         return
-    handled = bool(exit_info.get('covering-handled'))
+    # three-valued: True / False as decided by the exit-test rule; None when that rule could not
+    # analyse is_buffered_transition (then "no covering case" is not established either)
+    handled = exit_info.get('covering-handled')
     failing = []
     for lit, users in sorted(sets.items()):
         sup, opaque = None, []
@@ -1257,6 +1684,9 @@ def d3_buffer_range(ck, mod, exit_info):
             ck.ok(rule, mod, fn, con, 'buffer %s %g keeps widest basin (%g) + 2 * buffer within 360 (%s)' % ('<' if sup[1] else '<=', sup[0], widest, who))
         elif handled:
             ck.ok(rule, mod, fn, con, 'wider buffers are admitted, but is_buffered_transition treats a widened basin that spans the circle as not leavable')
+        elif handled is None:
+            ck.missing(rule, 'the validation admits %s for %s, which needs an exit test that handles a widened basin spanning the circle, '
+                       'and is_buffered_transition could not be analysed' % (('buffer %s %g' % ('<' if sup[1] else '<=', sup[0])) if sup else 'any buffer', list(lit)))
         elif opaque:
             ck.missing(rule, 'a validation condition on the buffer is not a linear form over literals: %s' % '; '.join(opaque)[:160])
         else:
@@ -1367,6 +1797,305 @@ def d1_wrapped_angles(ck, mod):
 
 
 # ---------------------------------------------------------------------------
+# D5: the functions of the state machine are functions of their arguments
+
+_MUTABLE_CTORS = ('dict', 'list', 'set', 'bytearray', 'defaultdict', 'OrderedDict', 'deque', 'Counter',
+                  'collections.defaultdict', 'collections.OrderedDict', 'collections.deque', 'collections.Counter')
+_FAITHFUL = ('tuple', 'list', 'bytes', 'frozenset', 'float', 'str', 'repr')
+
+
+def _module_bound(mod):
+    """Names bound at module level (assignments, defs, classes; not imports)."""
+    out = set()
+    stack = list(mod.tree.body)
+    while stack:
+        n = stack.pop()
+        if isinstance(n, (ast.FunctionDef, ast.AsyncFunctionDef, ast.ClassDef)):
+            out.add(n.name)
+        elif isinstance(n, ast.Assign):
+            for t in n.targets:
+                out.update(target_names(t))
+        elif isinstance(n, (ast.AnnAssign, ast.AugAssign)):
+            out.update(target_names(n.target))
+        elif isinstance(n, (ast.If, ast.Try, ast.With, ast.For, ast.While)):
+            for f in ('body', 'orelse', 'finalbody'):
+                stack += getattr(n, f, [])
+            for h in getattr(n, 'handlers', []):
+                stack += h.body
+    return out
+
+
+def _fn_locals(fn):
+    """(local names, names declared global) of a function."""
+    glob = {x for n in walk_local(fn) if isinstance(n, (ast.Global, ast.Nonlocal)) for x in n.names}
+    loc = set(params(fn))
+    for n in walk_local(fn):
+        if isinstance(n, ast.Name) and isinstance(n.ctx, (ast.Store, ast.Del)):
+            loc.add(n.id)
+        elif isinstance(n, (ast.FunctionDef, ast.AsyncFunctionDef, ast.ClassDef)) and n is not fn:
+            loc.add(n.name)
+        elif isinstance(n, (ast.Import, ast.ImportFrom)):
+            loc.update((a.asname or a.name).split('.')[0] for a in n.names)
+    return loc - glob, glob
+
+
+def runtime_writes(mod):
+    """{module-level name: [(function qual, statement)]}: the module-level
+    objects that some function of the module rebinds (`global G`; G = ...) or
+    mutates in place (G[k] = v, G.attr = v, G.append(..), out=G) - i.e. state
+    that persists from one call to the next."""
+    from ..normal import _mutated_names
+    bound = _module_bound(mod)
+    out = {}
+    for q, f in mod.functions.items():
+        loc, glob = _fn_locals(f)
+        for st in walk_local(f):
+            if not isinstance(st, ast.stmt) or isinstance(st, (ast.FunctionDef, ast.AsyncFunctionDef, ast.ClassDef)):
+                continue
+            hdr = ast.Expr(value=ast.Tuple(elts=[e for e in header_exprs(st)], ctx=ast.Load())) if not isinstance(
+                st, (ast.Assign, ast.AugAssign, ast.AnnAssign, ast.Delete)) else st
+            if isinstance(st, (ast.For, ast.With, ast.AsyncFor, ast.AsyncWith)):
+                continue            # their headers bind names only; the body statements are visited on their own
+            for _i, nm, kind in _mutated_names([hdr], kinds=True):
+                if nm not in bound:
+                    continue
+                if (kind == 'rebind' and nm in glob) or (kind != 'rebind' and nm not in loc):
+                    out.setdefault(nm, []).append((q, st))
+    return out
+
+
+def _mutable_default_params(fn):
+    """Parameters whose default is a mutable object created once, at
+    definition time (`def f(x, _memo={})`): state shared by all calls."""
+    from ..core import param_default
+    out = []
+    for p_ in params(fn):
+        d = param_default(fn, p_)
+        if isinstance(d, (ast.Dict, ast.List, ast.Set, ast.ListComp, ast.DictComp, ast.SetComp)) or (
+                isinstance(d, ast.Call) and (call_name(d) or '') in _MUTABLE_CTORS):
+            out.append(p_)
+    return out
+
+
+def callees_closure(mod, fn):
+    """`fn` and the module-level functions of `mod` it calls, transitively."""
+    out, work = [fn], [fn]
+    while work:
+        f = work.pop()
+        for c in calls_in(f):
+            g = mod.functions.get(c.func.id) if isinstance(c.func, ast.Name) else None
+            if g is not None and g not in out:
+                out.append(g)
+                work.append(g)
+    return out
+
+
+class _Memo:
+    """The uses of a persistent container G inside one function, read as a
+    memo table: lookups (`k in G`, `G[k]`, `G.get(k)`) and fills (`G[k] = v`)."""
+
+    def __init__(self):
+        self.lookups = []       # (node, key expr, statement)
+        self.fills = []         # (statement, key expr, value expr)
+        self.other = []         # uses that are neither
+
+
+def memo_uses(mod, fi, G):
+    m = _Memo()
+    for n in walk_local(fi.fn):
+        if not (isinstance(n, ast.Name) and n.id == G):
+            continue
+        par = mod.parent.get(n)
+        st = fi.stmt(n)
+        if isinstance(par, ast.Subscript) and par.value is n:
+            if isinstance(par.ctx, ast.Load):
+                m.lookups.append((par, par.slice, st))
+            elif isinstance(par.ctx, ast.Store) and isinstance(st, ast.Assign) and len(st.targets) == 1 and st.targets[0] is par:
+                m.fills.append((st, par.slice, st.value))
+            else:
+                m.other.append(n)
+        elif isinstance(par, ast.Compare) and len(par.ops) == 1 and isinstance(par.ops[0], (ast.In, ast.NotIn)) and par.comparators[0] is n:
+            m.lookups.append((par, par.left, st))
+        elif isinstance(par, ast.Attribute) and par.attr == 'get' and isinstance(mod.parent.get(par), ast.Call) \
+                and mod.parent.get(par).func is par and mod.parent.get(par).args and not mod.parent.get(par).keywords:
+            m.lookups.append((mod.parent.get(par), mod.parent.get(par).args[0], st))
+        elif isinstance(n.ctx, ast.Load) and isinstance(par, ast.Call) and call_name(par) == 'len':
+            continue            # the size of the table: not a value stored in it (feeds nothing the rules look at)
+        else:
+            m.other.append(n)
+    return m
+
+
+def depends_on(fi, expr, at, covered=None, control=True):
+    """Backward slice over reaching definitions: the parameters (at their
+    entry values) that the value of `expr`, evaluated at statement `at`, is
+    computed from - through assignments, augmented assignments, in-place
+    stores into the objects involved and (control=True) the branch conditions
+    under which each definition executes.  `covered(name node, statement)`
+    cuts the slice at values the caller already accounts for."""
+    out, seen = set(), set()
+
+    def use(n, at):
+        if covered is not None and covered(n, at):
+            return
+        sites = set(fi.rd.defs_at(at, n.id))
+        for ms in fi._mutated_in_place(n.id):
+            if fi.cfg.reachable(ms, at):
+                sites.add(ms)
+        for d in sites:
+            if d == 'PARAM':
+                out.add(n.id)
+            elif isinstance(d, str) or (id(d), n.id) in seen:
+                continue
+            else:
+                seen.add((id(d), n.id))
+                site(d, n.id)
+
+    def site(d, name):
+        v = fi.def_value(d, name) if isinstance(d, (ast.Assign, ast.AnnAssign)) else None
+        reads = [x for x in walk_expr(v) if isinstance(x, ast.Name) and isinstance(x.ctx, ast.Load)] if v is not None else header_uses(d)
+        for x in reads:
+            use(x, d)
+        if control:
+            for a in governing(fi, d):
+                for x in walk_expr(a.test):
+                    if isinstance(x, ast.Name) and isinstance(x.ctx, ast.Load):
+                        use(x, a.owner)
+
+    for x in walk_expr(expr):
+        if isinstance(x, ast.Name) and isinstance(x.ctx, ast.Load):
+            use(x, at)
+    if control and at is not None:
+        for a in governing(fi, at):
+            for x in walk_expr(a.test):
+                if isinstance(x, ast.Name) and isinstance(x.ctx, ast.Load):
+                    use(x, a.owner)
+    return out
+
+
+def _key_components(key):
+    """The expressions whose values make up a memo key; a component wrapped in
+    a value-faithful conversion (tuple(x), float(x), x.tobytes()) also stands
+    for the wrapped expression."""
+    comps = list(key.elts) if isinstance(key, ast.Tuple) else [key]
+    out = []
+    for c in comps:
+        out.append(c)
+        while True:
+            if isinstance(c, ast.Call) and (call_name(c) or '') in _FAITHFUL and len(c.args) == 1 and not c.keywords:
+                c = c.args[0]
+            elif isinstance(c, ast.Call) and isinstance(c.func, ast.Attribute) and c.func.attr in ('tobytes', 'tolist', 'copy') and not c.args and not c.keywords:
+                c = c.func.value
+            else:
+                break
+            out.append(c)
+    return out
+
+
+def d5_hidden_state(ck, entries):
+    """A hysteresis machine is a function of the angle history, the
+    boundaries and the buffer it is GIVEN.  A function on the path
+    _rotamers -> is_buffered_transition -> get_gates (and transitions) that
+    reads an object which persists between calls and is written at run time -
+    a module-level container, a `global`, a mutable default argument - returns
+    what an earlier call left there.  The one benign use is a memo table
+    whose key determines the stored value: every parameter the stored value
+    is computed from (backward slice over reaching definitions, including
+    branch conditions) must enter the key, either itself / through a
+    value-faithful conversion (tuple(x)), or through exactly the expression
+    the value is computed from (int(state)).  A parameter the value depends
+    on that the key does not mention at all makes the table return the
+    result of a call with OTHER arguments: violation.  Any other use of
+    run-time state is not understood: incomplete.
+    Returns {function node: {'hits': return statements that hand out a verified memo entry, 'fills': [(store, value)]}}."""
+    rule = 'C20.D5.no-hidden-state'
+    verified = {}
+    n = 0
+    for rel, root in entries:
+        mod = ck.repo.mod(rel)
+        writes = runtime_writes(mod)
+        for fn in callees_closure(mod, mod.func(root)):
+            q = mod.qualname(fn)
+            n += 1
+            ck.analysed(mod, fn)
+            fi = finfo(mod, fn)
+            loc, glob = _fn_locals(fn)
+            state = []
+            for G in sorted(writes):
+                if G in loc:
+                    continue
+                if any(isinstance(x, ast.Name) and x.id == G for x in walk_local(fn)):
+                    state.append((G, 'the module-level object `%s`' % G, writes[G]))
+            for p_ in _mutable_default_params(fn):
+                if fi._mutated_in_place(p_):
+                    state.append((p_, 'the mutable default of parameter `%s`' % p_, [(q, ms) for ms in fi._mutated_in_place(p_)]))
+            if not state:
+                ck.ok(rule, mod, fn, q, 'reads no object that persists between calls and is written at run time: the result is a function of the arguments')
+                continue
+            for G, what, ws in state:
+                where = ', '.join(sorted({'%s at %s' % (wq, mod.loc(wst)) for wq, wst in ws}))[:160]
+                m = memo_uses(mod, fi, G)
+                foreign = [w for w in ws if w[0] != q]
+                unrec = [w for w in ws if w[0] == q and w[1] not in [f[0] for f in m.fills]]
+                if m.other or foreign or unrec or not m.fills or not m.lookups:
+                    ck.missing(rule, '%s reads or writes %s, which persists between calls and is written at run time (%s); '
+                               'the use is not a memo table filled and read by this function alone, so the result may depend on the call history' % (q, what, where))
+                    continue
+                key_st, key0, _v = m.fills[0]
+                texts = {u(canon(c)) for c in _key_components(fi.expand(key0))}
+
+                def same_key(k, st):
+                    if fi.xu(k) != fi.xu(key0):
+                        return False
+                    return all(fi.rd.defs_at(st, x) == fi.rd.defs_at(key_st, x) for x in names_loaded(fi.expand(k)))
+                if not all(same_key(k, st) for _n, k, st in m.lookups) or not all(same_key(k, st) for st, k, _v2 in m.fills):
+                    ck.missing(rule, '%s uses %s as a table with several different keys (%s)' % (
+                        q, what, ' / '.join(sorted({fi.xu(k) for _n, k, _s in m.lookups} | {fi.xu(k) for _s, k, _v2 in m.fills}))[:160]))
+                    continue
+
+                def covered(nm, at):
+                    if not isinstance(nm.ctx, ast.Load):
+                        return False
+                    t = fi.xu(nm)
+                    if t not in texts:
+                        return False
+                    return all(fi.rd.defs_at(at, x) == fi.rd.defs_at(key_st, x) for x in names_loaded(fi.expand(nm)))
+                key_params = depends_on(fi, key0, key_st, control=False)
+                verdict = 'match'
+                for st, _k, val in m.fills:
+                    need = depends_on(fi, val, st, covered=covered) - {G}
+                    absent = sorted(p_ for p_ in need if p_ not in key_params)
+                    partial = sorted(p_ for p_ in need if p_ in key_params)
+                    if absent:
+                        verdict = 'near'
+                        ck.bad(rule, mod, st, q, 'memo table %s keyed without %s' % (G, ', '.join(absent)),
+                               '%s hands out entries of %s, filled by `%s` under the key %s. The stored value is computed from the parameter%s %s '
+                               '(backward slice of `%s`), which the key does not contain: once the table holds an entry, a later call that differs only in %s '
+                               'gets the value computed for the EARLIER arguments - the function is no longer a function of what it is given '
+                               '(for the gates: the basin widened by the first buffer width used in the process, whatever buffer the caller passes; '
+                               'a zero buffer is then not plain binning)' % (
+                                   q, what, u(st)[:80], fi.xu(key0), 's' if len(absent) > 1 else '', ', '.join(absent), u(val)[:60], ', '.join(absent)))
+                    elif partial and verdict == 'match':
+                        verdict = 'far'
+                        ck.missing(rule, '%s: the key %s of the memo table %s contains %s only inside an expression that need not determine it' % (
+                            q, fi.xu(key0), G, ', '.join(partial)))
+                if verdict == 'match':
+                    ck.ok(rule, mod, m.fills[0][0], '%s: memo table %s[%s]' % (q, G, fi.xu(key0)),
+                          'every argument the stored value is computed from enters the key: a stored entry equals what the call would compute')
+                    hits = []
+                    for r in returns_of(fn):
+                        if r.value is None:
+                            continue
+                        x = fi.expand(r.value)
+                        if isinstance(x, ast.Subscript) and isinstance(x.value, ast.Name) and x.value.id == G and same_key(r.value.slice if isinstance(
+                                r.value, ast.Subscript) else x.slice, r):
+                            hits.append(r)
+                    verified[fn] = {'table': G, 'hits': hits, 'fills': [(st, val) for st, _k, val in m.fills]}
+    ck.floor(rule, n, 4, 'functions of the state machine examined for persistent state')
+    return verified
+
+
+# ---------------------------------------------------------------------------
 # D2
 
 def _dimension(fi, site, a):
@@ -1399,6 +2128,45 @@ def _mask_parts(m):
     return m, True                       # where(d): the non-zero entries themselves
 
 
+def _unpacked_where(fi, d, name, a):
+    """`x, = np.where(m)` / `r, c = np.where(m)`: where() of a k-dimensional
+    mask yields exactly k index arrays, so under the dimensionality test that
+    governs `d` an unpacking into k names equals indexing (`np.where(m)[j]`);
+    with another number of names the statement raises - not recognised."""
+    if not (isinstance(d, ast.Assign) and len(d.targets) == 1 and isinstance(d.targets[0], (ast.Tuple, ast.List))
+            and all(isinstance(t, ast.Name) for t in d.targets[0].elts) and isinstance(d.value, ast.Call)
+            and call_name(d.value) in ('np.where', 'np.nonzero') and len(d.value.args) == 1 and not d.value.keywords):
+        return None
+    names = [t.id for t in d.targets[0].elts]
+    if names.count(name) != 1 or _dimension(fi, d, a) != len(names):
+        return None
+    sub = ast.Subscript(value=d.value, slice=ast.Constant(value=names.index(name)), ctx=ast.Load())
+    return ast.copy_location(sub, d.value)
+
+
+def _slice_difference(d, a):
+    """`d` is built only from constant slices of `a`, one subtraction or
+    (in)equality, or np.diff(a, <constants>): an expression of the family
+    the first difference belongs to, so an unaccepted member (other offsets,
+    the other axis, a second-order difference) IS a different function."""
+    def const_slice(x):
+        if isinstance(x, ast.Tuple):
+            return all(const_slice(y) for y in x.elts)
+        if isinstance(x, ast.Slice):
+            return all(y is None or const_value(y) is not None or (isinstance(y, ast.Constant) and y.value is None) for y in (x.lower, x.upper, x.step))
+        return type(const_value(x)) is int
+
+    def piece(x):
+        return isinstance(x, ast.Subscript) and isinstance(x.value, ast.Name) and x.value.id == a and const_slice(x.slice)
+    if isinstance(d, ast.BinOp) and isinstance(d.op, ast.Sub):
+        return piece(d.left) and piece(d.right)
+    if isinstance(d, ast.Compare) and len(d.ops) == 1 and isinstance(d.ops[0], (ast.Eq, ast.NotEq)):
+        return piece(d.left) and piece(d.comparators[0])
+    if isinstance(d, ast.Call) and call_name(d) in ('np.diff', 'numpy.diff') and d.args and isinstance(d.args[0], ast.Name) and d.args[0].id == a:
+        return all(const_value(x) is not None for x in d.args[1:]) and all(const_value(k.value) is not None for k in d.keywords)
+    return False
+
+
 def d2_transitions(ck):
     rule = 'C20.D2.transitions'
     F = 'transitions'
@@ -1423,6 +2191,8 @@ def d2_transitions(ck):
         if isinstance(r.value, ast.Name) and fi.temp_value(r.value) is None:
             for d in fi.defs_of_use(r.value):
                 val = fi.def_value(d, r.value.id) if not isinstance(d, str) else None
+                if val is None and not isinstance(d, str):
+                    val = _unpacked_where(fi, d, r.value.id, a)
                 if val is None:
                     ck.missing(rule, 'definition of the returned `%s` not recognised' % r.value.id)
                 else:
@@ -1451,6 +2221,9 @@ def d2_transitions(ck):
                                'overwritten; it must be a fresh array %s' % (d.id, u(pv), dforms[dim][0]))
                     d = ast.BinOp(left=pv, op=aug.op, right=fi.expand(aug.value))
         v = classify(d, dforms[dim], scope={a})
+        if v[0] == 'near' and not _slice_difference(d, a):
+            # some other function of the input (np.not_equal(..), a cast, a roll): not shown to differ from the first difference
+            v = ('far', 0, None)
         ck.decide(v, rule + '.difference', mod, site, F, u(canon(d)),
                   'first difference along the frame axis: frame n+1 against frame n (slice lemma, L = 1)',
                   'the difference must pair frame n with n+1 along the FRAME axis: a[1:] - a[:-1] (1-D) and a[:, 1:] - a[:, :-1] (2-D)')
@@ -1473,14 +2246,14 @@ def d2_transitions(ck):
                     ck.check(ok0, rule + '.nonzero', mod, site, F, u(ex), '1-D: frame indices', '1-D result must be np.where(d != 0)[0]')
             else:
                 v = classify(ex, ['np.where(%s != 0)[0]' % dforms[1][0]], scope={a})
+                if v[0] == 'near':
+                    v = ('far', 0, None)        # another way of listing positions (argwhere, a comprehension): not shown to differ
                 ck.decide(v, rule + '.nonzero', mod, site, F, u(ex)[:200], '1-D: frame indices', '1-D result must be np.where(d != 0)[0]')
             continue
         # 2-D: ragged array of the column indices grouped by per-row counts
         bnd = bind_args(ex, _SIGS['ra.RaggedArray']) if isinstance(ex, ast.Call) and call_name(ex) in ('ra.RaggedArray', 'RaggedArray') else None
         if bnd is None or 'array' not in bnd or 'lengths' not in bnd:
-            v = classify(ex, ['ra.RaggedArray(_C, _L)'], scope={a})
-            if v[0] == 'match':
-                v = ('far', 0, None)
+            v = ('far', 0, None)                # a ragged result built some other way: not understood
             ck.decide(v, rule + '.per-row', mod, site, F, u(ex)[:200], '', 'the 2-D result must be ra.RaggedArray(<columns>, lengths=<transitions per row>)')
             continue
         cols, lens = bnd['array'], bnd['lengths']
@@ -1511,9 +2284,7 @@ def d2_transitions(ck):
                  'the ragged result must hold the COLUMN indices (second component of where) grouped by the row counts')
         lb = bind_args(lens, _SIGS['np.bincount']) if isinstance(lens, ast.Call) and call_name(lens) == 'np.bincount' else None
         if lb is None or 'x' not in lb or 'weights' in lb:
-            v = classify(lens, ['np.bincount(%s, minlength=%s.shape[0])' % (rows_n, a)], scope={a, rows_n, cols_n})
-            if v[0] == 'match':
-                v = ('far', 0, None)
+            v = ('far', 0, None)                # per-row counts computed some other way ((mask).sum(axis=1), a loop): not understood
             ck.decide(v, rule + '.per-row', mod, site, F, u(lens)[:200], '', 'lengths must be the number of transitions of each row: np.bincount(rows, minlength=<rows>)')
             continue
         if fi.rd.defs_at(site, rows_n) != {un}:
@@ -1528,6 +2299,10 @@ def d2_transitions(ck):
             continue
         nrows = ['%s.shape[0]' % a, 'len(%s)' % a] + ['(%s).shape[0]' % d for d in dforms[2]] + ['len(%s)' % d for d in dforms[2]]
         v = classify(lb['minlength'], nrows, scope={a})
+        ml = canon(lb['minlength'])
+        if v[0] == 'near' and not (const_value(ml) is not None or (isinstance(ml, ast.Call) and call_name(ml) == 'len') or (
+                isinstance(ml, ast.Subscript) and isinstance(ml.value, ast.Attribute) and ml.value.attr == 'shape')):
+            v = ('far', 0, None)                # not a length / shape entry / constant: not shown to be a different number
         ck.decide(v, rule + '.per-row', mod, site, F, u(lens)[:200], 'one length entry per input trajectory (minlength = number of rows)',
                   'minlength must be the number of trajectories (rows of the input)')
     for dim in (1, 2):
@@ -1573,8 +2348,9 @@ def d2_empty_result(ck):
 
 def check(ck):
     mod = ck.repo.mod(RO)
+    memo = d5_hidden_state(ck, [(RO, '_rotamers'), (DI, 'transitions')])
     d1_carried_state(ck, mod)
-    d3_gates(ck, mod)
+    d3_gates(ck, mod, memo)
     d3_buffer_range(ck, mod, d3_exit_test(ck, mod) or {})
     d1_wrapped_angles(ck, mod)
     d2_transitions(ck)
